@@ -308,14 +308,19 @@ for cls, mod in (('Socket', 'socket'), ('AsyncSocket', 'async_socket')):
              "int(environ.get('CONTENT_LENGTH', '0')) > self.server.max_http_buffer_size",
              label='oversize-refused-unread',
              ensures=[('nothing-read', 'reads == old(reads)'),
+                      ('queue-wf', 'self.queue.unf >= len(self.queue.items)'),
                       ('nothing-dispatched', NOTHING_DISPATCHED)], props=['C14', 'C04'])
     for exc in ('ValueError', 'KeyError', 'RecursionError'):
         c.may_raise(exc, 'True', label='undecodable-' + exc,
-                    ensures=[('nothing-dispatched', NOTHING_DISPATCHED)], props=['C04', 'C14'])
+                    ensures=[('nothing-dispatched', NOTHING_DISPATCHED),
+                             ('queue-wf', 'self.queue.unf >= len(self.queue.items)')],
+                    props=['C04', 'C14'])
     c.may_raise('UnknownPacketError', 'True',
-                ensures=[('events-only-grow', 'grows(events, old(events))')])
+                ensures=[('events-only-grow', 'grows(events, old(events))'),
+                         ('queue-wf', 'self.queue.unf >= len(self.queue.items)')])
     c.may_raise('SocketIsClosedError', 'True',
-                ensures=[('events-only-grow', 'grows(events, old(events))')])
+                ensures=[('events-only-grow', 'grows(events, old(events))'),
+                         ('queue-wf', 'self.queue.unf >= len(self.queue.items)')])
     c.ensures('reads-declared-length-within-limit',
               "reads == old(reads) + [int(environ.get('CONTENT_LENGTH', '0'))] and "
               "int(environ.get('CONTENT_LENGTH', '0')) <= self.server.max_http_buffer_size",
